@@ -1733,6 +1733,23 @@ def m_mem_swap(E, st, fid, t, args, dest_ty):
     if a[2][0] in ('mu', 'pairs', 'slice', 'len') or b[2][0] in ('mu', 'pairs', 'slice', 'len'):
         return E.opaque_call(st, fid, t, args, dest_ty)     # reported as unmodelled access to slot storage
     va, vb = E.load(st, a[2]), E.load(st, b[2])
+    if va[0] == 'map' and vb[0] == 'map' and va[1] != vb[1]:
+        # two whole containers exchanged (`mem::swap(self, &mut fresh)`): each place keeps its identity and takes
+        # over the abstract state of the other (as for mem::replace)
+        m1, m2 = st.maps.get(va[1]), st.maps.get(vb[1])
+        for x, y, nx, ny in ((m1, m2, va[1], vb[1]), (m2, m1, vb[1], va[1])):
+            if x is not None and y is not None and not x.dead and x.borrowed and not x.phantom \
+                    and not y.dead and not y.borrowed and not y.phantom and y.len0 is None:
+                for f in ('len', 'holes', 'extras', 'hole_rng', 'extra_rng', 'contents', 'examined', 'pending',
+                          'asked', 'asked_carry', 'owned_extras'):
+                    u, w = getattr(x, f), getattr(y, f)
+                    setattr(x, f, w)
+                    setattr(y, f, u)
+                st.zone.add_eq(x.cap, y.cap)
+                x.replaced = y.replaced or ny
+                slots.aux_drop(st, lambda q: q in (('len', nx), ('len', ny)))
+                st.log('replaced', nx, ny)
+                return ret(st, UNIT)
     out = []
     for s1 in E.store(st, a[2], vb):
         for s2 in E.store(s1, b[2], va):
@@ -1767,6 +1784,19 @@ def m_take(E, st, fid, t, args, dest_ty):
         s.log('replace', E.tag_of(d), E.tag_of(new), E.tag_of(old))
         out.append(('ret', s, old))
     return out
+
+
+@model(['core::clone::Clone::clone_from'], 'for a slice iterator: *self = source.clone() (a copy of the cursor pair)')
+def m_clone_from_default(E, st, fid, t, args, dest_ty):
+    d, srcv = args[0], args[1]
+    if d[0] == 'ref' and srcv[0] == 'ref':
+        try:
+            sv = E.load(st, srcv[2], quiet=True)
+        except Exception:
+            sv = None
+        if sv is not None and sv[0] == 'sliceit' and not sv[4]:
+            return [('ret', s, UNIT) for s in E.store(st, d[2], sv)]
+    return E.opaque_call(st, fid, t, args, dest_ty)
 
 
 @model(["core::slice::iter::IterMut::<'a, T>::into_slice"], 'the not-yet-yielded elements, as a mutable slice')
